@@ -579,6 +579,11 @@ func extractXMLDataField(parsedFieldBytes *TagValue, buffer []byte, dataLen int)
 		return
 	}
 	endIndex += dataLen + 1
+	if endIndex < 0 || endIndex >= len(buffer) {
+		err = parseError{OrigError: "extractField: XMLData length exceeds the message: " + string(buffer)}
+		remBytes = buffer
+		return
+	}
 
 	err = parsedFieldBytes.parse(buffer[:endIndex+1])
 	return buffer[(endIndex + 1):], err
